@@ -82,4 +82,6 @@ class BasicClosureCompiler(ClosureCompiler):
     ) -> Callable:
         source = self._make_source_builder(builder).string()
         unique_id = self._get_unique_id(base_id)
-        return self._compile(source, filename_maker(unique_id), namespace)
+        # base_id can be arbitrary text (the name of a converter), but `compile` refuses a file name with a NUL character
+        unique_filename = filename_maker(unique_id).replace("\x00", "\\x00")
+        return self._compile(source, unique_filename, namespace)
